@@ -17,7 +17,7 @@
 (***************************************************************************)
 EXTENDS Integers, Sequences, FiniteSets, TLC, SequencesExt, FiniteSetsExt, Functions, Json, IOUtils
 
-CONSTANTS Family,       \* "pair" | "eam" | "fs" | "adp" | "funcfl"
+CONSTANTS Family,       \* "pair" | "eam" | "fs" | "adp" | "funcfl" | "eam_under" | "fs_under"
           Targets,      \* set of target names explored by this configuration
           MaxSp,        \* species ranks are 1..MaxSp
           MaxPots,      \* max number of declared pair potentials (pair family)
@@ -115,6 +115,24 @@ FsModelsOver(Tg, S) ==
 
 FsModels(Tg) == UNION {FsModelsOver(Tg, 1..k) : k \in 1..MaxSp}
 
+\* Under-specified models: some species have no embedding entry (they only appear in the density section) and / or no
+\* density entry.  The missing functions are zero; species without an embedding entry follow the declared ones in sorted order.
+PermsThenSorted(E, S) == {p \o SetToSortSeq(S \ E, <) : p \in Perms(E)}
+EamUnderModels(Tg) ==
+  UNION {UNION {{[fam |-> "eam", tgt |-> t, nr |-> n, nrho |-> nh, pots |-> PotSeqOf(P), els |-> e,
+                  embedDecl |-> E, densDecl |-> (Dn \X {0}), dip |-> <<>>, quad |-> <<>>] :
+                    t \in Tg, n \in NRs, nh \in NRhos, Dn \in (SUBSET (1..k)) \ {{}},
+                    P \in {{}, {<<a, b>> \in (1..k) \X (1..k) : a <= b}}, e \in PermsThenSorted(E, 1..k)} :
+                 E \in (SUBSET (1..k)) \ {{}}} : k \in 2..MaxSp}
+EamUnder(Tg) == {mm \in EamUnderModels(Tg) : mm.embedDecl \cup {d[1] : d \in mm.densDecl} = Range(mm.els) /\ mm.embedDecl # Range(mm.els)}
+FsUnderModels(Tg) ==
+  UNION {UNION {{[fam |-> "fs", tgt |-> t, nr |-> n, nrho |-> nh, pots |-> <<>>, els |-> e,
+                  embedDecl |-> E, densDecl |-> D, dip |-> <<>>, quad |-> <<>>] :
+                    t \in Tg, n \in NRs, nh \in NRhos, D \in (SUBSET ((1..k) \X (1..k))) \ {{}},
+                    e \in PermsThenSorted(E, 1..k)} :
+                 E \in (SUBSET (1..k)) \ {{}, 1..k}} : k \in 2..MaxSp}
+FsUnder(Tg) == {mm \in FsUnderModels(Tg) : mm.embedDecl \cup {d[1] : d \in mm.densDecl} \cup {d[2] : d \in mm.densDecl} = Range(mm.els)}
+
 FuncflModels(Tg) == {[fam |-> "funcfl", tgt |-> "funcfl", nr |-> n, nrho |-> nh, pots |-> <<<<1, 1>>>>, els |-> <<1>>,
                   embedDecl |-> {1}, densDecl |-> {<<1, 0>>}, dip |-> <<>>, quad |-> <<>>] : n \in NRs, nh \in NRhos}
 
@@ -123,6 +141,8 @@ Models == CASE Family = "pair" -> PairModels(Targets)
             [] Family = "fs" -> FsModels(Targets)
             [] Family = "adp" -> AdpModels(Targets)
             [] Family = "funcfl" -> FuncflModels(Targets)
+            [] Family = "eam_under" -> EamUnder(Targets)
+            [] Family = "fs_under" -> FsUnder(Targets)
 
 -----------------------------------------------------------------------------
 (* What the user declared, as functions of the model (the SPECIFICATION side) *)
